@@ -64,8 +64,17 @@ def confirm(outdir):
         # existing tests: move demo files away first
         for d in demos:
             os.rename(os.path.join(wt, d), os.path.join(wt, d) + ".hold")
+        adapters = sorted({m.group(1) for m in re.finditer(r"^\+\+\+ b/pkg/adapters/([^/]+)/", patch, re.M)})
+        pk = [x for x in pk if not x.startswith("./pkg/adapters/")]
         tests = " ".join(pk + ["./api/...", "./tests/...", "./core/base/...", "./core/stat/..."])
         rc, out = sh("go test -vet=off -count=1 %s" % tests, cwd=wt, timeout=3000)
+        for ad in adapters:
+            # adapters are Go modules of their own; -v because some TestMain end with os.Exit(0)
+            rc2, out2 = sh("go build ./... && go test -vet=off -count=1 -v .", cwd=os.path.join(wt, "pkg", "adapters", ad), timeout=3000)
+            out += "\n" + out2
+            if rc2 != 0 and "--- FAIL" not in out2 and "FAIL" not in out2:
+                out += "\nFAIL adapter %s rc=%d" % (ad, rc2)
+            verdict.setdefault("adapter_tests", {})[ad] = len(re.findall(r"^--- PASS", out2, re.M))
         fails = [l for l in out.splitlines() if l.startswith("FAIL") or l.startswith("--- FAIL")]
         fails = [l for l in fails if "HotSpotParamRuleJsonArrayParser" not in l and l.strip() not in ("FAIL", "FAIL\tgithub.com/alibaba/sentinel-golang/ext/datasource")]
         verdict["existing_tests_pass"] = not [l for l in fails if "ext/datasource\t" not in l]
